@@ -5,6 +5,7 @@ From SCC Require Import Base.Sexp Model.RunBase Model.RunPM Model.RunStages.
 From SCC Require Import Model.RunFun2Core.
 From SCC Require Import Model.RunRT.
 From SCC Require Import Model.RunLin.
+From SCC Require Import Base.Sexp Model.RunBase Model.RunCheck.
 Open Scope string_scope.
 
 Definition dispatch (cmd : string) (input : string) : string :=
@@ -20,5 +21,6 @@ Definition dispatch (cmd : string) (input : string) : string :=
   | "stages" => run_stages input
   | "fun2core" => run_fun2core input
   | "rt" => run_rt input
+  | "check" => run_check input
   | _ => "BAD - unknown command " ++ cmd ++ nl
   end.
